@@ -62,7 +62,11 @@ def gen_case(rng):
             op = ['iw', rng.choice(IWV)]
         elif r < 0.67:
             op = ['mf', rng.choice(MF)]
-        elif r < 0.82:
+        elif r < 0.80:
+            op = ['p']
+        elif r < 0.86 and led.paused:
+            # resume immediately followed by pause: the woken senders run while paused
+            ops.append(['r'])
             op = ['p']
         else:
             op = ['r']
@@ -245,8 +249,15 @@ def oracle(case, obs):
                                     {'kind': 'stuck-with-credit', 'blocked': p}))
                 else:
                     bad.append(('sender %d ended in state %s' % (i, p), {'kind': 'sender-state', 'pc': p}))
-            if op[0] == 'qp' and False:
-                pass
+            # back-pressure: once the transport is paused a sender emits at most the one chunk it
+            # had already been woken for
+            after = r['chunks'] if r.get('paused_before') else (r['chunks'][op[1]:] if op[0] == 'qp' else [])
+            per = {}
+            for i, _size in after:
+                per[i] = per.get(i, 0) + 1
+            if any(v > 1 for v in per.values()):
+                bad.append(('a sender kept sending while the transport was paused (%d frames)'
+                            % max(per.values()), {'kind': 'sent-while-paused'}))
     if frames:
         bad.append(('DATA frames outside any op', {'kind': 'stray-data'}))
     if case.get('final_grant') and obs['records']:
@@ -292,6 +303,10 @@ def check_cases(ctx, res, cases):
                 res.count('quiescent with a negative stream window')
             if r['cw'] == 0 or any(w == 0 for w in r['sws']):
                 res.count('quiescent with a zero window')
+            if r.get('paused_before') and r['chunks']:
+                res.count('frames sent by senders woken before the transport paused again')
+            if r['paused'] and not r.get('paused_before'):
+                res.count('transport paused from inside write()')
         if any(ln == 0 for ln in case['lens']) and case.get('api', 'data') == 'data':
             res.count('case with an empty message')
         if obs['records'] and obs['records'][-1]['pcs'] == 'D' * n:
@@ -309,6 +324,12 @@ def check_cases(ctx, res, cases):
                              min(len(m), len(impl)))
                 res.disagreements.append({'case': case, 'model': m[first:first + 1],
                                           'impl': impl[first:first + 1], 'first_record': first})
+        if case.get('witness') == 'competitor' and not obs['setup_error']:
+            # the witness of C07_per_sender_bound_refuted, replayed on the real code
+            r = obs['records'][1] if len(obs['records']) > 1 else {}
+            if [tuple(c) for c in r.get('chunks', [])] != [(0, 10)] or r.get('pcs') != 'UU':
+                res.disagreements.append({'case': case, 'model': 'competitor_uses_the_grant (Coq witness)',
+                                          'impl': r, 'first_record': 1})
         for what, sig in oracle(case, obs):
             res.oracle_failures.append({'case': case, 'what': what, 'signature': sig,
                                         'observed': {'records': obs['records'][-3:],
